@@ -216,7 +216,17 @@ bloc::Value * UTF8Plugin::executeMethod(
     bloc::Value& a0 = args[0]->value(ctx);
     if (a0.isNull())
       throw RuntimeError(EXC_RT_OTHER_S, "Invalid arguments.");
-    u->Reserve(*a0.integer());
+    if (*a0.integer() < 0)
+      throw RuntimeError(EXC_RT_OUT_OF_RANGE);
+    try
+    {
+      u->Reserve(*a0.integer());
+    }
+    catch (std::exception&)
+    {
+      /* beyond the capacity of the container or of the memory */
+      throw RuntimeError(EXC_RT_OUT_OF_RANGE);
+    }
     return new bloc::Value(bloc::Bool(true));
   }
 
